@@ -34,6 +34,11 @@ over a pool of long names; names longer than 32 bytes are observed as length + F
 8 bytes.  The C driver also checks identity at every call: jso_key is the key pointer of the member's
 entry in the real parent and that entry holds the node (else "!kid=0"/"!kval=0" in the key token),
 *jso_index is the node's real position ("!idx=0").
+(7) callbacks that edit what is still to come: during the first call on a container the callback
+deletes trailing / all elements, appends, replaces an element, adds / replaces / deletes object members
+("@e PATH:OP&…").  json_visit.c reads a container's type, length and member table after that call, so
+the reference is the traversal of the tree with the edits carried out (settle).  Edits of a container
+whose member loop is already running are outside this class (the array length is read once).
 Line syntax:  PROG { ; PROG },  PROG := TREE SCHED { ( K PROG ) }  (see harness/drv_visit.c);
 observation "T<i> <calls> | ret <r>" / "T<i> notrun" joined by " || ", every call with a sixth
 token naming the user argument it arrived with ("own" / "arg<j>").
@@ -66,7 +71,8 @@ TRUSTED = ["Coq 8.16.1 kernel (coqc), no axioms (Print Assumptions: closed under
            "extraction (ExtrOcamlBasic only) + ocaml/mdrv glue (drv_visit.ml turns a schedule into a callback)",
            "harness/drv_visit.c (node identity by pointer table built with the plain container API), jvtext.h, gcc -fsanitize=address,undefined",
            "checks/C17.py ref_visit as the reading of json_visit.h"]
-ASSUMPTIONS = ["the callback does not modify the tree or *jso_index during the visit",
+ASSUMPTIONS = ["the callback does not modify *jso_index, and changes the tree only as follows: during the first call on a container "
+               "it may edit that container (class 'edits'); a container whose members are being iterated is left alone",
                "future_flags is documented as reserved/unused: the reference traversal does not depend on it",
                "overlapping traversals are exercised by nesting (a callback that calls json_c_visit); two threads visiting "
                "concurrently are not run (the harness is single-threaded)",
@@ -288,6 +294,61 @@ def _count(v):
         if k:
             todo.extend(k)
     return n
+
+
+# ---- callbacks that edit the container they are called on ("@e PATH:OP&…", see harness/drv_visit.c)
+def parse_edits(opts):
+    m = re.search(r"@e([^@]*)", opts)
+    if not m:
+        return []
+    out = []
+    for item in m.group(1).split("&"):
+        path, _, op = item.partition(":")
+        out.append((tuple(int(x) for x in path.split("/") if x), op))
+    return out
+
+
+def _apply_op(v, op):
+    c, body = op[0], op[1:]
+    if isinstance(v, list):
+        if c == "d":
+            k = min(int(body), len(v))
+            return v[:len(v) - k]
+        if c == "D":
+            return []
+        if c == "a":
+            return v + [parse(body)]
+        if c == "r":
+            i, _, t = body.partition("=")
+            i = int(i)
+            return v[:i] + [parse(t)] + v[i + 1:] if i < len(v) else v
+        return v
+    if isinstance(v, tuple) and v[0] == "o" and c in "AX":
+        k, eq, t = body.partition("=")
+        key = b"" if k == "-" else bytes.fromhex(k)
+        if c == "X":
+            return ("o", [(a, b) for a, b in v[1] if a != key])
+        if c == "A" and eq:
+            val = parse(t)
+            if any(a == key for a, _ in v[1]):
+                return ("o", [(a, val if a == key else b) for a, b in v[1]])
+            return ("o", v[1] + [(key, val)])
+    return v
+
+
+def settle(v, edits, path=()):
+    """json_visit.h does not forbid the callback to change what has not been visited yet, and the
+    visitor looks at a container only after the first call on it: the members visited are those
+    the container has when that call returns.  With edits addressed by path this is the plain
+    traversal of the tree with the edits carried out top-down."""
+    for p, op in edits:
+        if p == path:
+            v = _apply_op(v, op)
+    if isinstance(v, list):
+        return [settle(c, edits, path + (i,)) for i, c in enumerate(v)]
+    if isinstance(v, tuple) and v[0] == "o":
+        return ("o", [(k, settle(c, edits, path + (i,))) for i, (k, c) in enumerate(v[1])])
+    return v
 
 
 def parse_line(line):
@@ -812,6 +873,77 @@ def gen_keys(rng, tier):
     return out
 
 
+# ------------------------------------------------------------------ callbacks that edit what is still to come
+_EDIT_VALUES = ["n", "t", "i5", "[]", "[n,t]", "{61=n}", "[[n]]", "{78=[t],79=n}"]
+
+
+def gen_edits(rng, tier):
+    """during the first call on a container the callback deletes trailing / all elements, appends one or
+    several, replaces an element; adds, replaces or deletes object members (the table is not being walked
+    yet).  Systematic over small containers at the root and nested, then random."""
+    out = []
+    thorough = tier != "quick"
+
+    def emit(tree, edits, scheds):
+        text = dump(tree)
+        opts = "@e" + "&".join("/" + "/".join(str(i) for i in p) + ":" + op if p else "/:" + op for p, op in edits)
+        after = settle(tree, edits)
+        for sc in scheds:
+            obs, _ = want_obs(after, sc)
+            out.append((mkline(text, sc, opts), {"kind": "edits", "want": obs}))
+
+    def scheds_for(after):
+        n = len(ref_visit(after, [])[0])
+        k = rng.randint(1, max(1, n))
+        return [[], [CONTINUE] * (k - 1) + [rng.choice([SKIP, POP, STOP, ERROR, rng.choice(INVALID)])]]
+    arrays = [[], [None], [True, None], [("i", 1), [None], True], [[], ("o", [(b"a", None)]), None, False]]
+    objects = [("o", []), ("o", [(b"a", None)]), ("o", [(b"a", ("i", 1)), (b"b", [None])]),
+               ("o", [(b"k%d" % i, ("i", i)) for i in range(11)])]          # 11 members: the next adds resize the table
+    aops = lambda a: (["d1", "d2", "d%d" % max(len(a), 1), "d99", "D"] + ["a" + v for v in _EDIT_VALUES] +
+                      ["r%d=%s" % (i, v) for i in range(len(a) + 1) for v in ("n", "[t,f]", "i9")])
+    oops = lambda o: (["A6e6577=" + v for v in _EDIT_VALUES] + ["A-=t"] +
+                      ["A%s=%s" % (k.hex() or "-", v) for k, _ in o[1][:3] for v in ("n", "[t]")] +
+                      ["X%s" % (k.hex() or "-") for k, _ in o[1][:3]] + ["X7a7a"])
+    wrap = [lambda c: (c, ()), lambda c: ([True, c, None], (1,)), lambda c: (("o", [(b"p", None), (b"q", c), (b"r", [])]), (1,)),
+            lambda c: ([[c, ("i", 3)]], (0, 0))]
+    for cont in arrays + objects:
+        ops = aops(cont) if isinstance(cont, list) else oops(cont)
+        for op in ops:
+            for w in (wrap if thorough else [wrap[0], rng.choice(wrap[1:])]):
+                tree, path = w(cont)
+                edits = [(path, op)]
+                emit(tree, edits, scheds_for(settle(tree, edits)))
+        # several edits in one call: append twice then drop one, add then delete, …
+        for _ in range(6 if not thorough else 40):
+            tree, path = rng.choice(wrap)(cont)
+            edits = [(path, rng.choice(ops)) for _ in range(rng.randint(2, 4))]
+            emit(tree, edits, scheds_for(settle(tree, edits)))
+    # appended / replacing values that are edited in turn when their own first call comes
+    emit([None], [((), "a[t]"), ((1,), "a{61=n}"), ((1, 1), "A62=[]"), ((1, 1, 1), "an")], [[], [0, 0, 0, SKIP], [0, 0, 0, 0, 0, POP]])
+    emit(("o", [(b"a", [None, None])]), [((), "A62=[n,n,n]"), ((0,), "D"), ((1,), "d1"), ((1,), "ai7")], [[], [0, 0, 0, 0, STOP]])
+    # random trees, random edits on random containers (addressed in the tree as it is at that time)
+    for _ in range(250 if not thorough else 5000):
+        tree = jvtext.gen_tree(rng, depth=3, size=4, nuls=False)
+        edits = []
+        cur = tree
+        for _e in range(rng.randint(1, 4)):
+            conts = []
+            todo = [((), settle(tree, edits))]
+            while todo:
+                p, x = todo.pop()
+                k = _kids(x)
+                if k is not None:
+                    conts.append((p, x))
+                    todo.extend((p + (i,), c) for i, c in enumerate(k))
+            if not conts:
+                break
+            p, x = rng.choice(conts)
+            edits.append((p, rng.choice(aops(x) if isinstance(x, list) else oops(x))))
+        if edits:
+            emit(tree, edits, scheds_for(settle(tree, edits)))
+    return out
+
+
 def gen(rng, tier):
     cases = gen_small_scope(tier) + gen_exhaustive(tier) + gen_random(rng, tier) + gen_programs(rng, tier) + gen_sizes(rng, tier)
     # a third of all other cases run with some non-default future_flags / userarg as well: the
@@ -829,7 +961,7 @@ def gen(rng, tier):
                 return _opts(*rot[j[0] % len(rot)])
             line = decorate(line, pick)
         out.append((line, meta))
-    return out + gen_args(rng, tier) + gen_keys(rng, tier)
+    return out + gen_args(rng, tier) + gen_keys(rng, tier) + gen_edits(rng, tier)
 
 
 # ------------------------------------------------------------------ oracle
@@ -861,7 +993,8 @@ def oracle(line, meta, impl):
         return oracle_progs(line, want, impl)
     text, tree, sched, _opts = parse_line(line)
     if want is None:
-        want, _ = want_obs(tree, sched)
+        eds = parse_edits(_opts)
+        want, _ = want_obs(settle(tree, eds) if eds else tree, sched)
     if impl == want:
         return None
     got = impl.split(" | ")
@@ -1142,7 +1275,12 @@ LEVEL_TEXT = ("Machine-checked: for every tree and every callback (an arbitrary 
               "json_visit.c on every run by differential execution of the extracted model and the ASan/UBSan build on all tree shapes up to "
               "5 nodes x all callback behaviours on the first calls, plus random larger trees; a Python reference traversal written from "
               "json_visit.h judges the implementation's output directly.")
-LEVEL_NOTE = ("Trusted: Coq kernel; extraction + OCaml glue; harness (node identity through a pointer table); the reading of json_visit.h in "
+LEVEL_NOTE = ("Callbacks that edit the tree (class 'edits': during the first call on a container, that container) are NOT part of the Coq "
+              "statement: the model's callback returns an answer only.  For them the check is oracle + correspondence only: the plugin "
+              "(settle + ref_visit) and the OCaml glue (settle, then the extracted model) traverse the tree with the edits carried out, "
+              "the C driver performs the edits inside the callback.  (A Gallina callback returning answer x edit makes the recursion "
+              "non-structural — an editing callback can make the traversal endless, in C as well — so the theorem was not attempted.)  "
+              "Trusted: Coq kernel; extraction + OCaml glue; harness (node identity through a pointer table); the reading of json_visit.h in "
               "VisitSpec.v / ref_visit (no second call after SKIP, as json-c's own expected test output shows).  The theorems are about the "
               "Gallina model; the C code is tied to it by the checked correspondence (exhaustive on small trees, sampled beyond).  Callbacks "
               "that modify the tree during the visit are outside the statement.")
